@@ -259,6 +259,7 @@ def C06(ctx):
     root = ctx.spec['root']
     nontrivial = []
     classes = Counter()
+    has_exit_pt = any(sd['kind'] == 'exit_pt' for m in st.machine.values() for sd in m['states'].values())
     for i, c in enumerate(ctx.case):
         if i >= len(ctx.sut):
             break
@@ -274,6 +275,10 @@ def C06(ctx):
             # dispatch phase only: guards and actions belong to the row of one region; exit/entry cascades of a
             # submachine legitimately walk its regions again and are covered by the run comparison below
             if not p or p[0] not in ('g', 'a'):
+                continue
+            # an exit point hands its (converted) event to the outermost machine from inside the dispatch of a region: all
+            # regions are offered that second event, so the index restarts; there the order is decided by the run comparison
+            if has_exit_pt:
                 continue
             o = tok_owner(ctx, p)
             if not o:
